@@ -242,7 +242,25 @@ def run(ctx, replay):
     if replay:
         payload = json.load(open(os.path.join(VERIF, replay) if not os.path.isabs(replay) else replay))
         mod.setup(ctx) if hasattr(mod, 'setup') else None
-        still = mod.replay(ctx, payload) if hasattr(mod, 'replay') else None
+        if hasattr(mod, 'replay'):
+            still = mod.replay(ctx, payload)
+        else:
+            # generic replay: re-run the correspondence with the seed of the recorded run and, if it (still) breaks, the
+            # search; "still fails" = the same kind of failing input (same match dict) or the same disagreeing op recurs
+            ctx.seed = int(payload.get('seed', ctx.seed))
+            ctx.known_entries = [f for f in load_findings() if f.get('property') == prop and f.get('status') == 'known']
+            try:
+                mod.correspondence(ctx)
+            except Exception as e:
+                ctx.disagree('harness-exception', {'exception': repr(e)}, None, None, traceback.format_exc()[-2000:])
+            if ctx.disagreements and hasattr(mod, 'search'):
+                mod.search(ctx)
+            want = (payload.get('failing') or {}).get('match')
+            if payload.get('found_failing_input') and want:
+                still = any(f.get('match') == want for f in ctx.failing) or (bool(ctx.disagreements) and not ctx.failing)
+            else:
+                ops = {c.get('op') for c in (payload.get('broken', {}).get('correspondence') or [])}
+                still = any(d['op'] in ops for d in ctx.disagreements) if ops else bool(ctx.disagreements)
         print('REPLAY property=%s file=%s still_fails=%s' % (prop, replay, still))
         return 1 if still else 0
 
